@@ -37,20 +37,16 @@ ob("hdfimport_process_flags", ["C19"], entry="h_process", enforce=None, mode="bo
    bound="2 input files of arbitrary formats, dimension fields 2..3, SDS output only (no raster/palette); gdimen/gmaxmin/gscale/gdata "
          "replaced by contracts whose requires is the per-input flag clause (gscale/gdata frames trusted)",
    replace=["gdimen", "gmaxmin", "gscale", "gdata"], **HI)
-# observational twin: nothing replaced; the ghost-disk bodies CHECK that text is scanned only from TEXT inputs and binary values are
-# fetched with the element size of the input's own format (its failures replay natively)
-ob("hdfimport_process_obs", ["C19"], entry="h_process", enforce=None, mode="bounded", tier="thorough", timeout=900,
-   bound="2 input files of arbitrary formats, each 1 plane x 2 rows x 2 columns, SDS output only", defines=["HI_DIMS_MIN"],
-   **dict(HI, unwind=7, cex_unwind=7))
+# (an observational twin of hdfimport_process_flags with NOTHING replaced -- real gdimen/gmaxmin/gscale/gdata on the ghost disk, inputs of
+#  1 x 2 x 2 values -- did not finish in 15 min (cbmc timeout) and is not registered; -DHI_DIMS_MIN in the unit is its switch)
 
 # ----------------------------------------------------------------------------- hdiff driver glue (array_diff stubbed by a reference count)
 DR = dict(unit="hdiff_drv_u.c", mode="bounded", enforce=None, objbits=10,
           trusted=["array_diff: reference body (exact int8 count / harness-chosen per-slab counts) + log; its real contract: hdiff_array_u.c, hdiff_float_u.c",
-                   "SD*/GR* readers: bodies delivering two ghost datasets; printf: no effect; strcmp/strcpy: exact models for names of <= 1 character"])
+                   "match_table_init/add/free (hdiff_mattbl.c): model with a fixed 4-entry table; SD*/GR* readers: bodies delivering two ghost datasets; printf: no effect; strcmp/strcpy: exact models for names of <= 1 character"])
 ob("hdiff_sds_slabs", ["C19"], entry="h_sds_slabs", file="mfhdf/hdiff/hdiff_sds.c", unwind=6, cex_unwind=6,
    bound="int8 SDS of 2..3 rows x 1 MiB (hyperslab path, one slab per row), no fill value, no attributes", **DR)
 ob("hdiff_gr_comps", ["C19"], entry="h_gr_comps", file="mfhdf/hdiff/hdiff_gr.c", unwind=14, cex_unwind=14,
    bound="int8 images of 1..2 x 1..2 pixels with 1..3 components", **DR)
 ob("hdiff_match_only", ["C19"], entry="h_match_only", file="mfhdf/hdiff/hdiff.c", unwind=6, cex_unwind=6,
-   flags=["--unwindset", "match_table_init.0:22"],   # the table is created with 20 entries (a constant of the code)
    bound="at most 2 Vdata objects per file, names of 1 character", **DR)
